@@ -755,6 +755,17 @@ func (ex *Exec) unfoldGround(st *State, u ast.Expr, ctx *specCtx, splitSrc strin
 			st.assume(Eq(App(SInt, "f_acc", t, l, nT, IntLit(j)),
 				Add(App(SInt, "f_acc", t, l, nT, IntLit(j-1)), Mul(w, Pow2Lit(int(11*(n-j)))))))
 		}
+	case "horner":
+		// horner(t, L, k): the same value accumulated Horner-style; k instances
+		t := ex.coerce(st, ex.spec(st, call.Args[0], ctx), SSeq, call.Args[0])
+		l := ex.specTerm(st, call.Args[1], ctx)
+		k := konst(call.Args[2])
+		st.assume(Eq(App(SInt, "f_horner", t, l, IntLit(0)), IntLit(0)))
+		for j := int64(1); j <= k; j++ {
+			w := App(SInt, "f_widx", l, App(SStr, "f_sat", t, IntLit(j-1)))
+			st.assume(Eq(App(SInt, "f_horner", t, l, IntLit(j)),
+				Add(Mul(App(SInt, "f_horner", t, l, IntLit(j-1)), IntLit(2048)), w)))
+		}
 	case "shr11":
 		v := ex.specTerm(st, call.Args[0], ctx)
 		vn := ex.define(st, "V", v)
@@ -790,6 +801,14 @@ func (ex *Exec) unfoldStep(st *State, u ast.Expr, ctx *specCtx) {
 		st.assume(Implies(Ge(k, IntLit(1)), Eq(App(SInt, "f_acc", t, l, n, k),
 			Add(App(SInt, "f_acc", t, l, n, Sub(k, IntLit(1))), App(SInt, "f_bigshl", w, Mul(IntLit(11), Sub(n, k)))))))
 		st.assume(Eq(App(SInt, "f_acc", t, l, n, IntLit(0)), IntLit(0)))
+	case "horner":
+		t := ex.coerce(st, ex.spec(st, call.Args[0], ctx), SSeq, call.Args[0])
+		l := ex.specTerm(st, call.Args[1], ctx)
+		k := ex.specTerm(st, call.Args[2], ctx)
+		w := App(SInt, "f_widx", l, App(SStr, "f_sat", t, Sub(k, IntLit(1))))
+		st.assume(Implies(Ge(k, IntLit(1)), Eq(App(SInt, "f_horner", t, l, k),
+			Add(Mul(App(SInt, "f_horner", t, l, Sub(k, IntLit(1))), IntLit(2048)), w))))
+		st.assume(Eq(App(SInt, "f_horner", t, l, IntLit(0)), IntLit(0)))
 	case "shr11":
 		v := ex.specTerm(st, call.Args[0], ctx)
 		p := ex.specTerm(st, call.Args[1], ctx)
